@@ -38,12 +38,12 @@ def gen_cases(rng, tier, scale):
     ATOMS = ['t', '{{> @partial-block}}', '{{> leaf}}', '{{#> p1}}u{{/p1}}', '{{#> p1}}{{> @partial-block}}{{/p1}}',
              '{{#if yes}}{{> @partial-block}}{{/if}}', '{{#each two}}{{> @partial-block}}{{/each}}', '{{{v}}}', '{{v}}',
              '{{#> nolayout}}{{> @partial-block}}{{/nolayout}}', '{{#> p1}}{{#> p1}}{{> @partial-block}}{{/p1}}{{/p1}}', '{{> leaf v=1}}',
-             '{{#with o}}{{> @partial-block}}{{/with}}']
+             '{{#with o}}{{> @partial-block}}{{/with}}', '{{{e}}}', '{{{nul}}}', '{{&e}}', '{{{zz}}}']
     WRAPS = [('{{#> lay}}[{{v}}]{{/lay}}', 'lay', None),
              ('{{#> outer}}C{{v}}{{/outer}}', 'body', '[{{#> inner}}%s{{/inner}}]')]
     mpb = (150 if tier == 'quick' else 3000) * scale
     for k in range(mpb):
-        data = {'v': '<&>', 'yes': True, 'two': [1, 2], 'o': {'v': 'in'}}
+        data = {'v': '<&>', 'yes': True, 'two': [1, 2], 'o': {'v': 'in'}, 'e': '', 'nul': None}
         A = ''.join(rng.choice(ATOMS) for _ in range(rng.randint(1, 3)))
         B = ''.join(rng.choice(ATOMS) for _ in range(rng.randint(1, 3)))
         main, slot, frame = WRAPS[k % 2]
